@@ -307,6 +307,7 @@ def embeddings(frag, g, star=True, G=None):
     by_last = [[] for _ in range(k)]
     for (i, j, w) in bonds:
         by_last[max(i, j)].append((i, j, w))
+    candset = [set(c) for c in cands]
     out = []
     f = []
 
@@ -316,7 +317,13 @@ def embeddings(frag, g, star=True, G=None):
             if all(stereo_holds(G, t, st) for st in stereo):
                 out.append(t)
             return
-        for x in cands[pos]:
+        pool = cands[pos]
+        for (i, j, w) in by_last[pos]:
+            o = j if i == pos else i
+            if o != pos:        # a declared bond to an earlier atom: only its neighbours can stand here
+                pool = [x for x in G.nbrs[f[o]] if x in candset[pos]]
+                break
+        for x in pool:
             if x in f:
                 continue
             f.append(x)
@@ -330,4 +337,4 @@ def embeddings(frag, g, star=True, G=None):
                 rec(pos + 1)
             f.pop()
     rec(0)
-    return sorted(out)
+    return sorted(set(out))
